@@ -93,9 +93,12 @@ def classify(unit, meta, res):
         if any(x in low for x in RESOURCE):
             undecided.append('resource limit: ' + msg); continue
         if code in BORROW:
-            # ownership error: a map call while a guard is alive
+            # ownership error: a map call while a guard is alive.  Only conflicts on the map field itself count;
+            # a conflict on `*self` (a helper method widened to &mut self by R4) is undecided, not a violation.
             sp = [s for s in spans if s.get('is_primary')] or spans
             f = fn_at(sp[0]['line_start']) if sp else None
+            if not re.search(r'self\.(memory|store)\b', msg + ' ' + rendered):
+                undecided.append('ownership conflict not on the map field (R4 artefact?): ' + msg); continue
             failed.append({'ob': 'ownership.%s' % (f[2].split('::')[-1] if f else '?'), 'props': ['C16'], 'fn': f[2] if f else None,
                            'msg': msg, 'rendered': rendered, 'kind': 'ownership'})
             continue
@@ -269,11 +272,26 @@ def main():
                 failed_all.append(dict(failed_obs[oid][0], unit=unit, full=full))
             else:
                 n_dis += 1
-        # ownership failures (C16)
+        # C16: "no map call while a guard is alive" is an ownership obligation per function that touches the map:
+        # discharged by the borrow checker on the unit (guards borrow the map; exclusive calls need &mut)
+        own = pc.get('ownership', {}).get(unit, [])
+        own_failed = {}
         for oid, fl in failed_obs.items():
-            if fl[0]['kind'] == 'ownership' and pid in fl[0]['props']:
+            if fl[0]['kind'] == 'ownership':
+                own_failed[oid.split('.', 1)[1]] = fl[0]
+        for fname in own:
+            oid = '%s.no_call_under_guard' % fname
+            full = unit + '/' + oid
+            obligations_seen[full] = {'text': 'no dashmap call is made while a guard returned by the map is alive (dashmap documents this as a deadlock); checked as an ownership obligation on the stand-in', 'fn': fname, 'kind': 'ownership'}
+            n_obl += 1
+            if fname in own_failed:
+                failed_all.append(dict(own_failed[fname], ob=oid, unit=unit, full=full, kind='ownership'))
+            else:
+                n_dis += 1
+        for fname, f in own_failed.items():
+            if fname not in own and pid == 'C16':
                 n_obl += 1
-                failed_all.append(dict(fl[0], unit=unit, full=unit + '/' + oid))
+                failed_all.append(dict(f, unit=unit, full=unit + '/' + f['ob'], kind='ownership'))
         ft = r['fn_times']
         assumed = {a['fn']: a['checked_by'] for a in meta.get('assumed_fns', [])}
         for a in meta.get('assumed_fns', []):
@@ -326,6 +344,20 @@ def main():
     rc = 0
     for (f, k) in known_hits:
         print('KNOWN-FINDING: property=%s %s %s' % (pid, f['full'], k.get('what', '')))
+    # findings that no contract within reach expresses (replay-only): listed while their replay still reproduces
+    replay_only = []
+    for k in known.get('open', []):
+        if k['property'] == pid and not k.get('obligation'):
+            try:
+                import replaytool, witness
+                ok, err = replaytool.build_replay_bin()
+                doc = json.load(open(k['replay']))
+                res = witness.run_witness(doc['witness']) if ok else {'violates': True}
+                if res['violates']:
+                    print('KNOWN-FINDING: property=%s replay-only %s' % (pid, k.get('what', '')))
+                    replay_only.append(k)
+            except Exception as e:
+                undecided.append('replay-only finding could not be replayed: %r' % e)
     if violations:
         import replaytool
         os.makedirs(REPLAYS, exist_ok=True)
@@ -347,7 +379,7 @@ def main():
         print('UNDECIDED property=%s reason=zero obligations generated' % pid); rc = max(rc, 2)
     # evidence
     level = pc.get('level', 'proof')
-    if level == 'proof' and (known_hits or n_dis != n_obl):
+    if level == 'proof' and (known_hits or replay_only or n_dis != n_obl):
         level = 'other'
     keys = sorted(obligations_seen.keys())
     k0 = seed % max(1, len(keys))
@@ -364,7 +396,7 @@ def main():
             'units': units_ev,
             'bounded_checks': bounded,
             'kani': lemmas_ev,
-            'known_findings': [{'obligation': f['full'], 'what': k.get('what')} for (f, k) in known_hits],
+            'known_findings': [{'obligation': f['full'], 'what': k.get('what'), 'replay': k.get('replay')} for (f, k) in known_hits] + [{'obligation': None, 'what': k.get('what'), 'replay': k.get('replay')} for k in replay_only],
             'undecided': undecided,
             'samples': samples,
             'solver_time_ms': solver_ms,
